@@ -172,11 +172,13 @@ func c03Check(sc *hpScenario, obs *hpObs, r *vrt.Result, report func(kind, detai
 		report("deadlock: no thread can run", strings.Join(r.Blocked, "; "))
 		return
 	}
+	workerBlocked := ""
 	for _, b := range r.Blocked {
 		if !strings.Contains(b, "(env:") {
-			report("proxy goroutine blocked forever at quiescence", b)
+			workerBlocked = b
 		}
 	}
+	silent := false
 	if obs.DownGarbage != "" {
 		report("undecodable bytes written downstream", obs.DownGarbage)
 	}
@@ -202,14 +204,32 @@ func c03Check(sc *hpScenario, obs *hpObs, r *vrt.Result, report func(kind, detai
 			if sc.DownDisconnect {
 				continue // the client itself went away: ending without a reply is allowed
 			}
-			report("no response and the client did not disconnect (unexplained silence)", fmt.Sprintf("request %s; blocked=%v log=%v", rq.Token, r.Blocked, obs.Log))
+			silent = true
+			// root-cause class = what the proxy goroutine is doing + the stream's internal state
+			w := "worker goroutine exited"
+			if workerBlocked != "" {
+				w = "worker goroutine waiting forever (" + workerBlocked[strings.Index(workerBlocked, " at ")+4:] + ")"
+			}
+			sig, full := "stream no longer tracked", ""
+			if len(obs.Stuck) > 0 {
+				full = obs.Stuck[0]
+				// coarse root-cause class: phase + response-received flag + whether a retry had been set up
+				f := strings.Fields(full)
+				sig = f[0] + " " + f[1] + fmt.Sprintf(" retried=%v", obs.Attempts[rq.Token] > 1)
+			}
+			report("request never completed (no response, client did not disconnect): "+w+"; "+sig,
+				fmt.Sprintf("scenario %s, request %s; state: %s; blocked=%v log=%v", sc.Name, rq.Token, full, r.Blocked, obs.Log))
 			continue
 		}
 		f := resp[0]
 		allowed := map[uint16]bool{}
 		n := obs.Attempts[rq.Token]
-		if n > 0 {
-			allowed[bolt.ResponseStatusTimeout] = true // a timer may complete any request that went upstream
+		if !(sc.NoRoute || sc.NoHosts || sc.AllUnhealthy) {
+			// a timer may complete any routed request (timers are armed before the frame is written upstream)
+			allowed[bolt.ResponseStatusTimeout] = true
+			// a reset whose reason MOSN does not map (connection termination, or a reason read
+			// before it was stored) is answered with 500 -> bolt "unknown": still one MOSN error reply
+			allowed[bolt.ResponseStatusUnknown] = true
 		}
 		for k, s := range rq.Script {
 			if k < n {
@@ -258,14 +278,19 @@ func c03Check(sc *hpScenario, obs *hpObs, r *vrt.Result, report func(kind, detai
 	for id, fr := range byID {
 		report("response for a request id that was never sent", fmt.Sprintf("id %d: %+v", id, fr))
 	}
-	if obs.Active != 0 {
-		report("proxy still tracks an active stream at quiescence", fmt.Sprintf("activeStreams=%d", obs.Active))
+	if !silent {
+		if workerBlocked != "" {
+			report("proxy goroutine blocked forever although the request was answered", workerBlocked)
+		}
+		if obs.Active != 0 {
+			report("proxy still tracks an active stream although the request was answered", fmt.Sprintf("activeStreams=%d %v", obs.Active, obs.Stuck))
+		}
 	}
 }
 
 func c03RunScenario(p *vreport.Part, sc hpScenario, replay bool, deadline time.Time) bool {
 	obs := &hpObs{}
-	opts := vrt.Options{Bound: sc.Bound, Delay: true, MaxSteps: 200000, Deadline: deadline, Trace: os.Getenv("VERIF_DEBUG") == "2"}
+	opts := vrt.Options{Bound: sc.Bound, Delay: true, MaxSteps: 200000, Deadline: deadline, Trace: os.Getenv("VERIF_DEBUG") == "2" || os.Getenv("VERIF_TRACE_VIOL") != ""}
 	if os.Getenv("VERIF_DEBUG") != "" {
 		opts.MaxExecs = 1
 	}
@@ -297,7 +322,14 @@ func c03RunScenario(p *vreport.Part, sc hpScenario, replay bool, deadline time.T
 			p.Sample(map[string]interface{}{"scenario": sc.Name, "schedule": r.Choices, "downstream": down, "attempts": obs.Attempts})
 		}
 		c03Check(&sc, obs, r, func(kind, detail string) {
-			p.Violation(kind+" — scenario "+sc.Name, detail+fmt.Sprintf(" | schedule=%v", r.Choices), cc)
+			if os.Getenv("VERIF_TRACE_VIOL") != "" {
+				fmt.Printf("VIOL %s: %s\nEXEC %s\n  log=%v\n", kind, detail, r, obs.Log)
+				for _, l := range r.Trace {
+					fmt.Println("   ", l)
+				}
+				os.Exit(3)
+			}
+			p.Violation(kind, "scenario "+sc.Name+": "+detail+fmt.Sprintf(" | schedule=%v", r.Choices), cc)
 		})
 	})
 	p.AddTraces(st.Executions)
@@ -340,6 +372,11 @@ func TestVerifC03Terminal(t *testing.T) {
 	}
 	for i, sc := range mine {
 		sc.Bound = bound
+		if d := hpDeterminism(sc); d != "" {
+			vreport.HarnessError("C03", part, "nondeterministic scenario "+sc.Name+": "+d)
+			complete = false
+			continue
+		}
 		// every scenario gets an equal share of what is left of the budget
 		left := budget - time.Since(start)
 		share := left / time.Duration(len(mine)-i)
